@@ -1,0 +1,17 @@
+//go:build verif
+
+package config
+
+// Contracts for the deductive verifier in /verif (govc). Comment-only file: adds no code.
+
+// The generator's naming template: "godesigner" when none is given; a blank template is rejected.
+//@ func NewConfig
+//@   prop C20
+//@   opaque validate
+//@   ensures [default-template] len(format) == 0 ==> result0.NamingFormat == "godesigner"
+//@   ensures [given-template-kept] len(format) > 0 ==> result0.NamingFormat == format
+//@   ensures [validated] calls(validate, result0) == 1 && result1 == ret(validate)
+//@ func validate
+//@   prop C20
+//@   requires cfg != nil
+//@   ensures [blank-rejected] (result != nil) == (len(ret(strings.TrimSpace)) == 0) && calls(strings.TrimSpace, cfg.NamingFormat) == 1
